@@ -105,9 +105,16 @@ class Run:
         # the wall clock follows the simulated clock (code that looks at time.time() / file ages sees virtual days pass)
         import time as _time
         self._real_time = _time.time
-        t0 = self._real_time()  # files written during the run carry real mtimes: ages come out as the virtual time that has passed
+        t0 = self._real_time()
         loop = self.sim.loop
-        _time.time = lambda: t0 + loop._vt
+        self.wall_off = 0.0  # steps of the wall clock (knob clock_steps): the wall clock is not monotonic, the loop clock is
+        _time.time = lambda: t0 + loop._vt + self.wall_off
+        # ... and the files under ~/.sse are stamped from it, at the granularity of this run's file system (knob mtime_gran)
+        self.seam.clock = _time.time
+        self.seam.t_attach = t0
+        self.seam.mtime_gran = knobs.get("mtime_gran") or 0
+        if self.seam.mtime_gran:
+            self.sim.count("coarse_mtime_run")
         CUR = self
 
     def ev(self, *a):
@@ -134,6 +141,12 @@ class Run:
             u = core.unit(self.sim.net_seed, "gc-generation", si)
             world.gc_point(0 if u < 0.5 else 1 if u < 0.7 else 2)
             self.sim.count("gc_point")
+        d = (self.knobs.get("clock_steps") or {}).get(str(si))
+        if d:
+            # the machine's wall clock is stepped (NTP correction, VM resume, operator): time.time() and new file stamps jump
+            self.wall_off += d
+            self.sim.count("clock_step_back" if d < 0 else "clock_step_forward")
+            self.ev("clock_step", d)
 
     def finish(self):
         global CUR
